@@ -54,7 +54,7 @@ REQUIRED_PROBES = {"quick": ["lookup_served_from_cache", "definition_after_first
                              "reparse_of_serialisation", "interleaved_clients", "until_rule", "count_rule",
                              "rdate_observance", "two_eras", "no_tzname", "slash_prefixed_id", "parsed_with_multiple",
                              "utc_instant_family", "convert_with_process_wide_provider", "tzname_with_language",
-                             "converted_again_after_edit"]}
+                             "converted_again_after_edit", "hundreds_of_zones_cached"]}
 REQUIRED_PROBES["thorough"] = REQUIRED_PROBES["quick"]
 
 # "sim/a" / "SIM/B" / "SÏM/Ü": other ids than "Sim/A" / "Sim/B" / "Sïm/Ü" (ids are compared as they are written)
@@ -107,9 +107,15 @@ def generate(rng, cfg):
     docs = 0
     weights = [("parse", 10), ("reserialise", 3), ("parse_doc", 3), ("convert", 2),
                ("provider_switch", 1), ("soft_restart", 1.5)]
+    bulk_at = rng.randrange(nsteps) if rng.random() < 0.05 else None
     while len(trace) < nsteps:
         op = pick_weighted(rng, weights)
         c = rng.randrange(nclients)
+        if bulk_at is not None and len(trace) >= bulk_at:
+            # a long-running process: some other client has parsed calendars with hundreds of custom zones
+            bulk_at = None
+            trace.append([c, "bulk_parse", {"n": rng.choice([100, 140, 200, 300]), "per_calendar": rng.choice([1, 10, 50])}])
+            continue
         if op == "parse":
             cal = _gen_calendar(rng, defs, ids)
             slot = rng.randrange(3)
@@ -397,6 +403,23 @@ def execute(run, res):
         if last_client is not None and last_client != c:
             res.probe("interleaved_clients")
         last_client = c
+        if op == "bulk_parse":
+            res.ops[op] += 1
+            k = 0
+            while k < a["n"]:
+                lines = ["BEGIN:VCALENDAR", "VERSION:2.0", "PRODID:bulk"]
+                for _ in range(a["per_calendar"]):
+                    lines += zonegen.vtimezone_lines(zonegen.simple_definition(f"Bulk/{k:04}", 60 + k % 7 * 30))
+                    k += 1
+                lines += ["END:VCALENDAR"]
+                try:
+                    Calendar.from_ical("\r\n".join(lines) + "\r\n")
+                except Exception as e:
+                    res.violate(f"C12/bulk_parse/raised:{type(e).__name__}", stepno, repr(e)[:300])
+                    break
+            res.probe("hundreds_of_zones_cached")
+            res.observe(stepno, op, a["n"])
+            continue
         if op in ("parse", "parse_doc"):
             if op == "parse":
                 cal = a["cal"]
